@@ -10,7 +10,7 @@ import vlib
 POOL = {1: "0", 2: "2", 3: "75", 4: "50", 5: "0.3", 6: "7", 7: "750", 8: "-75", 9: "+75", 10: ".5", 11: "1.5", 12: "1e3", 13: "999999",
         14: "1000000", 15: "1000001", 16: "16777215", 17: "16777217", 18: "2147483647", 19: "-2147483648", 20: "0.1", 21: "1e-7",
         22: "1.234567", 23: "100.5", 24: "33.3333333", 25: "+.5", 26: "-0", 27: "+26", 28: "1E2", 29: "2", 30: "+1", 31: "1e37", 32: "3000000000", 33: "-99999999999", 34: "+0"}
-PLACEHOLDERS = {"~E~": "é", "~Z~": "字", "~M~": "😀", "~L~": "«", "~R~": "»", "~B~": "\ufeff"}
+PLACEHOLDERS = {"~E~": "é", "~Z~": "字", "~M~": "😀", "~L~": "«", "~R~": "»", "~B~": "\ufeff", "~N~": "\u00a0", "~I~": "\u3000", "~T~": "\t"}
 F32_EPS = Fraction(1, 2 ** 23)
 F32_MAX = Fraction(2 ** 128 - 2 ** 104)
 
@@ -98,7 +98,7 @@ class Concretiser:
         return q + body + q
 
     def url(self, v):
-        body = "".join("\\" + c if c in " ()'\"\\" else c for c in v)
+        body = "".join("\\9 " if c == "\t" else "\\" + c if c in " ()'\"\\" else c for c in v)
         return "url(" + body + ")"
 
     def tok(self, t):
